@@ -51,13 +51,17 @@ theorem runActs_trace (v : Variant) (acts : List Act) : ∀ st : St,
         | tail _ h => exact h2 e h
       · simp only [runActs]; rw [h3]; rfl
     | remove r =>
-      obtain ⟨ext, h1, h2, h3⟩ := ih ({ st with regs := v.remove st.regs r }.push (.removed r))
-      refine ⟨.removed r :: ext, ?_, ?_, ?_⟩
-      · simp only [runActs]; rw [h1]; simp [St.push]
-      · intro e he; cases he with
-        | head => rfl
-        | tail _ h => exact h2 e h
-      · simp only [runActs]; rw [h3]; rfl
+      simp only [runActs]
+      cases hrm : v.remove st.regs r with
+      | none => exact ⟨[.removed r, .raised], by simp [St.push], by simp [Ev.isBody], rfl⟩
+      | some l =>
+        obtain ⟨ext, h1, h2, h3⟩ := ih ({ st with regs := l }.push (.removed r))
+        refine ⟨.removed r :: ext, ?_, ?_, ?_⟩
+        · simp only []; rw [h1]; simp [St.push]
+        · intro e he; cases he with
+          | head => rfl
+          | tail _ h => exact h2 e h
+        · simp only []; rw [h3]; rfl
     | addAll c =>
       obtain ⟨ext, h1, h2, h3⟩ := ih { st with all := callerAdd st.all c }
       exact ⟨ext, by simp only [runActs]; rw [h1], h2, by simp only [runActs]; rw [h3]⟩
@@ -206,19 +210,28 @@ def eraseN (r : Reg) : Nat → List Reg → List Reg
   | 0, l => l
   | n + 1, l => eraseN r n (l.erase r)
 
-theorem removeGo_eq (r : Reg) : ∀ (xs l : List Reg), removeGo r xs l = eraseN r (xs.count r) l := by
+theorem listRemove_of_mem {l : List Reg} {x : Reg} (h : x ∈ l) : listRemove l x = some (l.erase x) := by
+  simp [listRemove, h]
+
+theorem removeGo_eq (r : Reg) : ∀ (xs l : List Reg), xs.count r ≤ l.count r →
+    removeGo r xs l = some (eraseN r (xs.count r) l) := by
   intro xs
   induction xs with
-  | nil => intro l; rfl
+  | nil => intro l _; rfl
   | cons x xs ih =>
-    intro l
+    intro l hc
     simp only [removeGo]
     by_cases hx : x.same r = true
     · have hxr : x = r := (same_iff x r).mp hx
-      rw [if_pos hx, ih, hxr, List.count_cons_self]
+      subst hxr
+      rw [List.count_cons_self] at hc
+      have hmem : x ∈ l := List.count_pos_iff.mp (by omega)
+      rw [if_pos hx, listRemove_of_mem hmem, Option.bind_some,
+        ih (l.erase x) (by rw [List.count_erase_self]; omega), List.count_cons_self]
       rfl
     · have hxr : ¬ x = r := fun h => hx ((same_iff x r).mpr h)
-      rw [if_neg hx, ih, List.count_cons_of_ne hxr]
+      rw [List.count_cons_of_ne hxr] at hc
+      rw [if_neg hx, ih l hc, List.count_cons_of_ne hxr]
 
 theorem eraseN_filter (r : Reg) : ∀ (n : Nat) (l : List Reg), l.count r ≤ n → eraseN r n l = l.filter (· ≠ r) := by
   intro n
@@ -246,8 +259,31 @@ theorem eraseN_filter (r : Reg) : ∀ (n : Nat) (l : List Reg), l.count r ≤ n 
         · rw [List.erase_of_not_mem hm]
 
 theorem removeHeaderCallback_eq_filter (l : List Reg) (r : Reg) :
-    removeHeaderCallback l r = l.filter (· ≠ r) := by
-  rw [removeHeaderCallback, removeGo_eq, eraseN_filter r _ l (Nat.le_refl _)]
+    removeHeaderCallback l r = some (l.filter (· ≠ r)) := by
+  rw [removeHeaderCallback, removeGo_eq r l l (Nat.le_refl _), eraseN_filter r _ l (Nat.le_refl _)]
+
+/-- the `list.remove` inside the old remove-while-iterating loop cannot raise either: it is applied to an
+element just read from the list -/
+theorem removeLiveGo_isSome (r : Reg) : ∀ (fuel i : Nat) (l : List Reg), (removeLiveGo r fuel i l).isSome = true := by
+  intro fuel
+  induction fuel with
+  | zero => intro i l; rfl
+  | succ f ih =>
+    intro i l
+    simp only [removeLiveGo]
+    cases hx : l[i]? with
+    | none => rfl
+    | some x =>
+      simp only []
+      split
+      · rw [listRemove_of_mem (List.mem_of_getElem? hx), Option.bind_some]; exact ih _ _
+      · exact ih _ _
+
+theorem remove_isSome (v : Variant) (l : List Reg) (r : Reg) : (v.remove l r).isSome = true := by
+  unfold Variant.remove
+  split
+  · rw [removeHeaderCallback_eq_filter]; rfl
+  · exact removeLiveGo_isSome r _ _ _
 
 /-! ### bodies that cannot raise; the all-packet callbacks -/
 
@@ -262,7 +298,11 @@ theorem runActs_noRaise (v : Variant) : ∀ (acts : List Act) (st : St), NoRaise
     have hr : NoRaise as := fun x hx => h x (by simp [hx])
     cases a with
     | add r => simp only [runActs]; exact ih _ hr
-    | remove r => simp only [runActs]; exact ih _ hr
+    | remove r =>
+      simp only [runActs]
+      cases hrm : v.remove st.regs r with
+      | none => have := remove_isSome v st.regs r; rw [hrm] at this; cases this
+      | some l => exact ih _ hr
     | addAll c => simp only [runActs]; exact ih _ hr
     | removeAll c => exact absurd rfl (ha.2 c)
     | raise => exact absurd rfl ha.1
